@@ -267,6 +267,33 @@ theorem program_refines (hk : Function.Injective kname) (kinds : List Nat) (hok 
   obtain ⟨ops, hdom, _, R', _⟩ := effs_refine hk kinds hok hD es ι s d st st' R A hc hes hno
   exact ⟨ops, _, hdom, R'⟩
 
+/-- **the syntactic form — nothing hidden in the premise**: a program whose attribute assignments (at any depth) never
+    name a class's own identifying attribute (`StmtOk`, with `N name := no kind has `name` as its id attribute`), run
+    from a Spec state that corresponds to a mechanism state, reaches its final state through a history `es` that IS the
+    image of a history `ops` of mechanism operations of the refinement's domain (`specRunA … ops` ends in that very
+    state), and the mechanism state after `ops` corresponds to it -/
+theorem program_refines_syntactic (hk : Function.Injective kname) (kinds : List Nat) (hok : Pyx.Meta.SchemaOk sch)
+    (hD : ∀ k ∈ kinds, DeclOk decl at_ sch k)
+    (R : RefinesA kname decl at_ sch ι s d st) (A : Pyx.Meta.AllInv sch s) (hc : Closed kname kinds st)
+    (fuel : Nat) (body : Block) (hbody : ∀ s ∈ body, StmtOk (fun name => ∀ k, at_.idName k ≠ some name) s)
+    (kw : List (String × Val)) (v : Val) (st' : State)
+    (h : runFunction (ctxOfA kname decl kinds sch) fuel body kw st = some (.ok (v, st'))) :
+    ∃ es ops, applyEffs (ctxOfA kname decl kinds sch) es st = .ok st' ∧
+      DomA decl at_ sch kinds s d ops ∧
+      (specRunA kname decl at_ (ctxOfA kname decl kinds sch) sch ops s d ι st).2 = st' ∧
+      RefinesA kname decl at_ sch (specRunA kname decl at_ (ctxOfA kname decl kinds sch) sch ops s d ι st).1
+        (mRunA decl at_ sch ops s d).1 (mRunA decl at_ sch ops s d).2 st' := by
+  obtain ⟨es, hN, hes⟩ := runFunction_effectsN (ctxOfA kname decl kinds sch) _
+    (fun f hf => by simp [ctxOfA] at hf) fuel body hbody kw st st' v h
+  have hno : ∀ e ∈ es, IdWritesNonneg kname at_ e := by
+    intro e he
+    have := hN e he
+    cases e with
+    | set X name w => intro k _ hid; exact absurd hid (this k)
+    | _ => trivial
+  obtain ⟨ops, hdom, hrun, R', _⟩ := effs_refine hk kinds hok hD es ι s d st st' R A hc hes hno
+  exact ⟨es, ops, hes, hdom, hrun, R'⟩
+
 /-- without identifying id attributes in the model the condition is void -/
 theorem program_refines_noid (hk : Function.Injective kname) (kinds : List Nat) (hok : Pyx.Meta.SchemaOk sch)
     (hD : ∀ k ∈ kinds, DeclOk decl at_ sch k) (hid : ∀ k, at_.idName k = none)
